@@ -290,12 +290,27 @@ def gen_setup(rng, channels, bs0, bs1, t=None, big=False, sane=False):
     return t, {"books": books, "modes": nmodes}
 
 
-def mutate(rng, t):
+INDEX_FIELDS = {"map.res", "map.floor", "mode.map", "map.chmux", "map.mag", "map.ang", "f1.cbook", "f1.subbook", "f1.pclass", "f0.book", "res.groupbook",
+                "res.book", "floors", "residues", "maps", "modes", "books", "map.submaps", "f0.numbooks", "f1.partitions", "res.partitions"}
+
+
+def mutate(rng, t, index_only=False):
     """boundary stream: one field changed, or the packet cut at a field boundary"""
     import copy
     m = Trace()
     m.f = copy.deepcopy(t.f)
     k = rng.randrange(7, len(m.f))
+    if index_only or rng.random() < 0.4:
+        # the fields that name an entry of another table (a book, floor, residue, mapping, submap, channel) and the counts of those tables: each
+        # gets the values around EVERY table's count, not only around its own (a check against the wrong count accepts exactly those)
+        idx = [j for j in range(7, len(m.f)) if m.f[j][2] in INDEX_FIELDS]
+        if idx:
+            k = rng.choice(idx)
+            v, n, label = m.f[k]
+            counts = [f[0] + 1 for f in m.f if f[2] in ("books", "floors", "residues", "maps", "modes", "map.submaps")]
+            c = rng.choice(counts + [v + 1, v + 2])
+            m.f[k][0] = rng.choice([c, c - 1, c + 1]) & ((1 << n) - 1) if n else 0
+            return m.pack(), "index:" + label
     v, n, label = m.f[k]
     r = rng.random()
     if r < 0.25:
